@@ -120,6 +120,8 @@ type daemon struct {
 	cb        avahi.EventCB
 	browsers  []*fakeBrowser
 	published *fakeGroup
+	hold      chan struct{} // the next ResolveService waits for this channel to be closed
+	entered   chan struct{} // closed when that ResolveService call has started
 }
 
 func (d *daemon) Setup(cb avahi.EventCB) error {
@@ -179,6 +181,16 @@ func (d *daemon) EntryGroupFree(r avahi.EntryGroupInterface) {
 	d.l.add("GroupFree", 0)
 }
 func (d *daemon) ResolveService(iface, protocol int32, name, serviceType, domain string, aprotocol int32, flags uint32) (avahi.Service, error) {
+	// a resolve is a D-Bus round trip: the script may hold the answer back (BrowseAdd .. ResolveDone)
+	d.mu.Lock()
+	hold := d.hold
+	entered := d.entered
+	d.hold, d.entered = nil, nil
+	d.mu.Unlock()
+	if hold != nil {
+		close(entered)
+		<-hold
+	}
 	return avahi.Service{Interface: iface, Protocol: protocol, Name: name, Type: serviceType, Domain: domain, Host: "peer.local", Address: "192.168.1.77", Port: 4712,
 		Txt: [][]byte{[]byte("txtvers=1"), []byte("id=peer"), []byte("path=/ship/"), []byte("ski=0123456789abcdef0123456789abcdef01234567"), []byte("register=false")}}, nil
 }
@@ -214,6 +226,8 @@ func runScript(s *scriptT) obsT {
 	}
 	requested := 0
 	shutdown := false
+	var held chan struct{}                  // the answer to a resolve request is being held back
+	var pendingShutdown chan *vh.CallResult // a Shutdown call that waits for the listener
 	for _, op := range s.Ops {
 		switch op.Op {
 		case "Announce":
@@ -245,21 +259,92 @@ func runScript(s *scriptT) obsT {
 			d.up = true
 			d.mu.Unlock()
 			l.add("DaemonUp", 0)
+		case "BrowseAdd":
+			// a service appears; the daemon holds the answer to the provider's resolve request back until ResolveDone
+			d.mu.Lock()
+			live := d.liveBrowsers()
+			hold, entered := make(chan struct{}), make(chan struct{})
+			if len(live) > 0 {
+				d.hold, d.entered = hold, entered
+			}
+			d.mu.Unlock()
+			l.add("BrowseAdd", 0)
+			if len(live) > 0 {
+				sent := false
+				func() {
+					defer func() { _ = recover() }()
+					select {
+					case live[len(live)-1].add <- avahi.Service{Interface: 1, Protocol: 0, Name: "early", Type: "_ship._tcp", Domain: "local"}:
+						sent = true
+					case <-time.After(500 * time.Millisecond):
+					}
+				}()
+				if sent {
+					select {
+					case <-entered:
+						held = hold
+					case <-time.After(500 * time.Millisecond):
+					}
+				}
+				if held == nil {
+					d.mu.Lock()
+					d.hold, d.entered = nil, nil
+					d.mu.Unlock()
+				}
+			}
+		case "ResolveDone":
+			l.add("ResolveDone", 0)
+			if held != nil {
+				close(held)
+				held = nil
+			}
+			if pendingShutdown != nil {
+				// the Shutdown that was called while the listener was resolving must return now
+				select {
+				case cr := <-pendingShutdown:
+					o.Final.Panicked = o.Final.Panicked || cr.Panicked
+				case <-time.After(3 * time.Second):
+					o.Final.ShutdownHung = true
+				}
+				pendingShutdown = nil
+				l.add("ShutdownEnd", 0)
+			}
+			time.Sleep(20 * time.Millisecond)
 		case "Shutdown":
 			l.add("ShutdownStart", 0)
+			shutdown = true
+			requested = 0
+			if held != nil {
+				// the listener is inside ResolveService: Shutdown waits for it, so it is called on its own goroutine and has
+				// to return once the daemon has answered (ResolveDone)
+				ch := make(chan *vh.CallResult, 1)
+				go func() { ch <- vh.Call(30*time.Second, func() { p.Shutdown() }) }()
+				pendingShutdown = ch
+				time.Sleep(30 * time.Millisecond)
+				break
+			}
 			cr := vh.Call(3*time.Second, func() { p.Shutdown() })
 			if cr.Hung {
 				o.Final.ShutdownHung = true
 			}
 			o.Final.Panicked = o.Final.Panicked || cr.Panicked
 			l.add("ShutdownEnd", 0)
-			shutdown = true
-			requested = 0
 		case "Wait":
 			l.add("WaitStart", 0)
 			time.Sleep(1300 * time.Millisecond)
 			l.add("WaitEnd", 0)
 		}
+	}
+	if held != nil {
+		close(held)
+	}
+	if pendingShutdown != nil {
+		select {
+		case <-pendingShutdown:
+		case <-time.After(3 * time.Second):
+			o.Final.ShutdownHung = true
+		}
+		l.add("ShutdownEnd", 0)
 	}
 	// final state on the daemon side
 	d.mu.Lock()
